@@ -1,6 +1,7 @@
 package main
 
 import (
+	"os/exec"
 	"encoding/json"
 	"fmt"
 	"os"
@@ -218,6 +219,7 @@ type violation struct {
 	res    *OblResult
 	replay string
 	confirmed bool
+	demoOut string // output of a failing finding demonstration (thorough tier)
 }
 
 func (eng *Engine) checkProperty(id, tier string, timeoutFlag, workers int, keep, verbose bool) int {
@@ -248,6 +250,7 @@ func (eng *Engine) checkProperty(id, tier string, timeoutFlag, workers int, keep
 	if timeoutFlag > 0 {
 		to = timeoutFlag
 	}
+	eng.crossCheck = tier == "thorough"
 	eng.curPureDynamic = cfg.PureDynamic
 	targets, terrs := eng.resolveTargets(&cfg)
 	var vjobs []vjob
@@ -363,6 +366,29 @@ func (eng *Engine) checkProperty(id, tier string, timeoutFlag, workers int, keep
 	}
 	viols = append(viols, contractViols...)
 	nObl += len(contractViols)
+	// thorough: the demonstration of every repaired defect of this property is run against the real code (it fails
+	// while the defect exists, so it must pass now); a failure is reported as the violation finding-demo:<what>
+	demosRun := 0
+	if tier == "thorough" {
+		doneDemo := map[string]bool{}
+		for _, f := range findings {
+			if f.Property != id || f.Status != "fixed" || f.Demo == "" || doneDemo[f.Demo] {
+				continue
+			}
+			doneDemo[f.Demo] = true
+			demosRun++
+			ok, out := eng.runDemo(f)
+			nObl++
+			if ok {
+				nDis++
+				byBackend["go test (finding demonstration)"]++
+				continue
+			}
+			o := &Obl{name: "finding-demo:" + f.Demo, kind: "finding-demo", text: f.What}
+			viols = append(viols, &violation{res: &OblResult{Obl: o, Status: "failed", Solver: "go test", Answer: out}, confirmed: true, demoOut: out})
+		}
+	}
+
 	if os.Getenv("VERIF_WRITE_HINTS") != "" {
 		eng.writeHints(run.results)
 	}
@@ -512,6 +538,12 @@ func (eng *Engine) checkProperty(id, tier string, timeoutFlag, workers int, keep
 	for _, k := range trustedContracts {
 		trusted = append(trusted, "trusted contract: "+k)
 	}
+	crossN := 0
+	for _, r := range run.results {
+		if r != nil && r.CrossConfirmed {
+			crossN++
+		}
+	}
 	ev := map[string]interface{}{
 		"property_id": id,
 		"tier":        tier,
@@ -520,7 +552,7 @@ func (eng *Engine) checkProperty(id, tier string, timeoutFlag, workers int, keep
 		"coverage": map[string]interface{}{
 			"obligations":          nObl,
 			"discharged":           nDis,
-			"checker_cmd":          fmt.Sprintf("cd /verif && ./check %s %s   (govc: VC generation over go/ssa of /repo with -tags verif; per-obligation timeout %ds; solvers raced: z3 5.1.0, z3 4.8.12, cvc5 1.0)", id, tier, to),
+			"checker_cmd":          fmt.Sprintf("cd /verif && ./check %s %s   (govc: VC generation over go/ssa of /repo with -tags verif; per-obligation timeout %ds; portfolio: z3 5.1.0, z3 5.1.0 arith.solver=2, z3 4.8.12, cvc5 1.0; thorough additionally re-checks every proof with a second z3 release and runs the demonstrations of repaired findings)", id, tier, to),
 			"trusted_base":         trusted,
 			"functions_under_contract": fnList,
 			"obligations_by_kind":  byKind,
@@ -537,6 +569,8 @@ func (eng *Engine) checkProperty(id, tier string, timeoutFlag, workers int, keep
 			"engine_errors":        engineErrs,
 			"unmodelled_or_havoced": notes,
 			"generation_s":         round2(run.genTime),
+			"cross_checked_by_second_solver": crossN,
+			"finding_demonstrations_run":     demosRun,
 		},
 		"assumptions": append(append([]string{}, cfg.Assumptions...), trusted...),
 		"wall_s":      round2(time.Since(t0).Seconds()),
@@ -576,3 +610,27 @@ func (eng *Engine) checkProperty(id, tier string, timeoutFlag, workers int, keep
 }
 
 func round2(f float64) float64 { return float64(int(f*100+0.5)) / 100 }
+
+// runDemo runs the demonstration test of a repaired finding against /repo's working tree (go test -overlay).
+func (eng *Engine) runDemo(f Finding) (bool, string) {
+	src := filepath.Join(eng.verifDir, f.Demo)
+	pkgDir := filepath.Join(eng.repoDir, f.DemoPkg)
+	tmp, err := os.MkdirTemp("", "verif-demo-")
+	if err != nil {
+		return false, err.Error()
+	}
+	defer os.RemoveAll(tmp)
+	ov := map[string]map[string]string{"Replace": {filepath.Join(pkgDir, filepath.Base(src)): src}}
+	ob, _ := json.Marshal(ov)
+	ovFile := filepath.Join(tmp, "ov.json")
+	os.WriteFile(ovFile, ob, 0o644)
+	cmd := exec.Command("go", "test", "-overlay", ovFile, "-vet=off", "-count=1", "-timeout", "120s", "-run", "^TestD[0-9]+", "./"+f.DemoPkg+"/")
+	cmd.Dir = eng.repoDir
+	cmd.Env = append(os.Environ(), "GOFLAGS=-mod=mod", "GOPROXY=off", "GOSUMDB=off", "GOTOOLCHAIN=local")
+	b, err := cmd.CombinedOutput()
+	out := string(b)
+	if len(out) > 2000 {
+		out = out[:2000]
+	}
+	return err == nil, out
+}
